@@ -5,13 +5,20 @@ c14_children_for_task  glue_trio.elaborate_nursery sets context.children to a co
                        and sets context.obj to `manager._nursery`
 c14_stub_rule          extract_child starts (after the not-inside-extract guard) with
                        `if for_task and not current_options.recurse_child_tasks: return Stack(root=stackitem, frames=[])`
-c14_traps_pruned       number of names in glue_trio's trap tuple, all customized with hide=True, prune=True,
-                       provided "wait_task_rescheduled" is among them (else 0)
+c14_trap_<name>        for each of the four Trio traps the model treats as hide+prune (cancel_shielded_checkpoint,
+                       wait_task_rescheduled, temporarily_detach_coroutine_object, permanently_detach_coroutine_object):
+                       <name> is, as a string constant of its own, an element of the tuple that glue_trio's
+                       `for trap in (...)` loop iterates, and the loop body's single customize() call is
+                       customize(getattr(lowlevel, trap), hide=True, prune=True)
 c14_wait_name          the to_thread glue tests `next_inner.funcname == "wait_task_rescheduled"`
 """
 import ast
 
 from .srcfacts import _find_def, _parse
+
+
+TRAP_NAMES = ("cancel_shielded_checkpoint", "wait_task_rescheduled",
+              "temporarily_detach_coroutine_object", "permanently_detach_coroutine_object")
 
 
 def _kw(call, name):
@@ -26,7 +33,9 @@ def _is_true(node):
 
 
 def compute():
-    facts = {"c14_children_for_task": False, "c14_stub_rule": False, "c14_traps_pruned": 0, "c14_wait_name": False}
+    facts = {"c14_children_for_task": False, "c14_stub_rule": False, "c14_wait_name": False}
+    for name in TRAP_NAMES:
+        facts["c14_trap_" + name] = False
     gl = _parse("stackscope/_glue.py")
     gt = _find_def(gl, "glue_trio")
     if gt is not None:
@@ -62,9 +71,14 @@ def compute():
                 names = [e.value for e in x.iter.elts]
                 calls = [c for c in ast.walk(x) if isinstance(c, ast.Call) and isinstance(c.func, ast.Name)
                          and c.func.id == "customize"]
-                if (len(calls) == 1 and _is_true(_kw(calls[0], "hide")) and _is_true(_kw(calls[0], "prune"))
-                        and "wait_task_rescheduled" in names):
-                    facts["c14_traps_pruned"] = len(names)
+                ok = (len(calls) == 1 and _is_true(_kw(calls[0], "hide")) and _is_true(_kw(calls[0], "prune"))
+                      and len(calls[0].args) == 1 and isinstance(calls[0].args[0], ast.Call)
+                      and isinstance(calls[0].args[0].func, ast.Name) and calls[0].args[0].func.id == "getattr"
+                      and len(calls[0].args[0].args) == 2
+                      and isinstance(calls[0].args[0].args[0], ast.Name) and calls[0].args[0].args[0].id == "lowlevel"
+                      and isinstance(calls[0].args[0].args[1], ast.Name) and calls[0].args[0].args[1].id == "trap")
+                for name in TRAP_NAMES:
+                    facts["c14_trap_" + name] = ok and name in names
         tt = _find_def(gt, "elaborate_to_thread_run_sync")
         if tt is not None:
             for x in ast.walk(tt):
